@@ -441,6 +441,25 @@ def run(only=None):
             hist.kept_results(s, f"{name}.correct_numpy_array", [({"code": name, "flipped": i}, (lambda cls=cls, c=c, n=n, i=i: cls.correct_numpy_array(numpy.array([int(b) for b in format(c ^ (1 << i), f"0{n}b")])))) for i in range(n)],
                               obs=to_int)
     s.done()
+    s = rep.sub("callers_buffer_overwritten_in_place",
+                "per code: the caller holds the message / the received word in ONE bitarray (for the numpy corrector: one array) that it overwrites in "
+                "place between calls, going through ALL 2^k messages (generate) and all single errors of three codewords (check_and_correct, "
+                "correct_numpy_array, check where the code has one): each call answers for the buffer's present content")
+    for name, cls in LIB.items():
+        n, k, d, g, ext = gf2.CODES[name]
+        ents = [(f"{name}.generate", (lambda b, cls=cls: to_int(cls.generate(b))), [int2ba(m, k) for m in range(1 << k)], [gf2.encode_systematic(m, n, k, g, ext) for m in range(1 << k)])]
+        words = []
+        for m in (1, (1 << k) - 2, (0x2B5 & ((1 << k) - 1))):
+            c = gf2.encode_systematic(m, n, k, g, ext)
+            words += [c] + [c ^ (1 << i) for i in range(n)]
+        for fn in ("check", "check_and_correct"):
+            f = getattr(cls, fn, None)
+            if callable(f):
+                ents.append((f"{name}.{fn}", (lambda b, f=f: f(b)), [int2ba(w_, n) for w_ in words], None))
+        if name in HAMMING:
+            ents.append((f"{name}.correct_numpy_array", (lambda a, cls=cls: to_int(cls.correct_numpy_array(a))), [numpy.array([int(b) for b in format(w_, f"0{n}b")]) for w_ in words], None))
+        hist.reused_buffer(s, name, ents, may_write=tuple(f"{name}.{fn}" for fn in ("check_and_correct", "correct_numpy_array")))
+    s.done()
     s = rep.sub("long_call_history", "the same valid calls again and again in one process: depth 3 when a call leaves class/module data untouched (observed), "
                                      "2^16+256 calls per entry point when it does not, and always in the thorough tier")
     import okdmr.dmrlib.etsi.fec.hamming_common as _mh, okdmr.dmrlib.etsi.fec.fec_utils as _mu, okdmr.dmrlib.etsi.fec.golay_20_8_7 as _mg
